@@ -178,6 +178,8 @@ new7 = '''## 7. Trusting the monitors: seeded changes
    (4,5,6,8,9,10,100,12345: 160 runs, silent); thorough tier at seeds 1, 2 and 3.  The thorough runs found
    two harness false alarms (§9: ORDER BY near-ties, the stuck-producer verdict) and one more genuine defect
    (§6: C06-select-or-with-function-over-null) that the quick tier does not reach.
+   After the stream `c05unsigned` was added (C05-K), C05 was re-run from fresh processes: quick at seeds
+   1, 2, 3, 5, 7, 42 and thorough at seed 1, all silent (1152 unsigned decisions per run).
 2. **Seeded changes.**  For every property a fresh sub-agent was given *only* the property text and a scratch
    worktree, and asked for two realistic changes (A, B) that break the property while the library still compiles
    and its suite still passes, each needing something specific to manifest, with a demonstration test.  A second
